@@ -105,7 +105,12 @@ func (m *machine) readRedeem2() {
 		p.OwnerID = a.owner.ID
 	}
 	validSig := true
-	switch rapid.SampledFrom([]int{9, 9, 9, 9, 9, 9, 9, 9, 0, 9, 1, 9, 2, 9, 9}).Draw(t, "signature") {
+	switch rapid.SampledFrom([]int{9, 9, 9, 9, 9, 9, 9, 9, 0, 9, 1, 9, 2, 9, 3, 9, 3}).Draw(t, "signature") {
+	case 3:
+		// a marker that names the reader but carries, and is properly signed with, somebody else's key pair
+		if other := m.client("foreignKeyPair"); other != reader {
+			p.Signer, p.CarriedKey, validSig = other, other, false
+		}
 	case 0:
 		p.Signer, validSig = m.w.S.Clients[5], false
 	case 1:
@@ -184,8 +189,8 @@ func TestC15_ReadMarkersChargeOnce(t *testing.T) {
 	redeems, replays := map[string]int{}, map[string]int{}
 	caseReset["C15"] = func() { redeems, replays = map[string]int{}, map[string]int{} }
 	ops := []string{"newAlloc2", "newAlloc2", "readLock", "readRedeem2", "readRedeem2", "readRedeem2", "readRedeem2", "readRedeem2", "readRedeem2", "readRedeem2",
-		"readUnlock", "upload", "advance", "advance", "extend2", "replaceBlobber", "cancel", "finalize", "kill", "unstake", "blobberSettings", "writeLock"}
-	runMachineOps(t, "C15", ops, "generated storage histories biased to read markers on a chain with 6 blobbers and 4 validators: markers for (blobber, reader, allocation) triples where the reader is the owner or another client and the blobber serves the allocation or not; counters replayed, older, next, forward by 1..400 blocks, huge, non-positive; signed by the reader, by another key, or altered after signing; timestamps now / at start / before start / after expiry; sent by the blobber or a stranger; interleaved with read pool locks and unlocks, new allocations sharing blobbers and readers, uploads, clock jumps, blobber replacement, cancel / finalize, kills, unstaking; oracle after every applied transaction: a read pool decreases only through a successful read_redeem of a marker of that very client (by floor(price x new blocks / 16384) within the stated tolerance, nothing for a replay) or through the client's own unlock; a successful redeem needs a valid signature of the reader's key, a counter not below the last redeemed one, and leaves exactly its counter as last redeemed; a failed redeem changes neither pool nor counter; non-trivial = history in which some triple was redeemed successfully >= 3 times including >= 1 replay charging nothing; distinct by history", 40, 90,
+		"readUnlock", "upload", "advance", "advance", "extend2", "replaceBlobber", "cancel", "finalize", "kill", "unstake", "blobberSettings", "writeLock", "blobberSettings2", "blobberSettings2"}
+	runMachineOps(t, "C15", ops, "generated storage histories biased to read markers on a chain with 6 blobbers and 4 validators: markers for (blobber, reader, allocation) triples where the reader is the owner or another client and the blobber serves the allocation or not; counters replayed, older, next, forward by 1..400 blocks, huge, non-positive; signed by the reader, by another key, by another key pair whose public key the marker then carries, or altered after signing; blobbers re-price their reads while allocations keep their agreed terms; timestamps now / at start / before start / after expiry; sent by the blobber or a stranger; interleaved with read pool locks and unlocks, new allocations sharing blobbers and readers, uploads, clock jumps, blobber replacement, cancel / finalize, kills, unstaking; oracle after every applied transaction: a read pool decreases only through a successful read_redeem of a marker of that very client (by floor(price x new blocks / 16384) within the stated tolerance, nothing for a replay) or through the client's own unlock; a successful redeem needs a valid signature of the reader's key, a counter not below the last redeemed one, and leaves exactly its counter as last redeemed; a failed redeem changes neither pool nor counter; non-trivial = history in which some triple was redeemed successfully >= 3 times including >= 1 replay charging nothing; distinct by history", 40, 90,
 		func(m *machine, txn *transaction.Transaction, o sim.Outcome, before *snapshot) error {
 			v := m.w.View()
 			ra := m.lastRead2
@@ -305,8 +310,8 @@ func TestC14_CloseRefundsOnce(t *testing.T) {
 	closes, richCloses, afterClose := 0, 0, 0
 	caseReset["C14"] = func() { closes, richCloses, afterClose = 0, 0, 0 }
 	ops := []string{"newAlloc2", "newAlloc2", "upload", "upload", "upload", "delete", "challenge", "challenge", "respond", "respond", "writeLock", "writeLock", "readRedeem2",
-		"extend2", "extend2", "replaceBlobber", "cancel", "cancel", "cancel", "finalize", "finalize", "finalize", "kill", "stake", "collect", "advance", "advance", "freeAlloc", "addAssigner", "fillAlloc", "fillAlloc", "fillAlloc", "storageSettings", "replaceChallenged", "advance"}
-	runMachineOps(t, "C14", ops, "generated storage histories biased to closing: allocations (incl. free-storage ones) receive uploads, challenges, write pool locks and updates and are then cancelled / finalized by the owner, one of their blobbers or a stranger, before and after expiry, repeatedly, followed by locks, markers, updates and closes naming the closed allocation; oracle: a close succeeds only for an open allocation, cancel only by the owner not after expiry, finalize only by the owner or one of its blobbers not before expiry; on a successful close the owner's balance grows by exactly what leaves the contract wallet, that refund is at least write pool - min(write pool, cancellation charge) and, together with all reward increments of stake pools, at most write pool + challenge pool; reward increments of the allocation's blobbers are at most challenge pool + min(write pool, cancellation charge); allocation and challenge pool nodes are gone; any later transaction naming the closed allocation fails and moves no balance; non-trivial = close with non-zero challenge pool and non-zero write pool; distinct by history", 40, 90,
+		"extend2", "extend2", "replaceBlobber", "cancel", "cancel", "cancel", "finalize", "finalize", "finalize", "kill", "stake", "collect", "advance", "advance", "freeAlloc", "addAssigner", "fillAlloc", "fillAlloc", "fillAlloc", "storageSettings", "replaceChallenged", "advance", "missThenPass", "missThenPass", "extendBackdate"}
+	runMachineOps(t, "C14", ops, "generated storage histories biased to closing: allocations (incl. free-storage ones) receive uploads, challenges, write pool locks and updates and are then cancelled / finalized by the owner, one of their blobbers or a stranger, before and after expiry, repeatedly, followed by locks, markers, updates and closes naming the closed allocation; oracle: a close succeeds only for an open allocation, cancel only by the owner not after expiry, finalize only by the owner or one of its blobbers not before expiry; on a successful close the owner's balance grows by exactly what leaves the contract wallet, that refund is at least write pool - min(write pool, cancellation charge) and, together with all reward increments of stake pools, exactly write pool + challenge pool (nothing more, nothing lost; series of challenges of which some are missed give blobbers pass rates between 0 and 1 at the close); reward increments of the allocation's blobbers are at most challenge pool + min(write pool, cancellation charge); allocation and challenge pool nodes are gone; any later transaction naming the closed allocation fails and moves no balance; non-trivial = close with non-zero challenge pool and non-zero write pool; distinct by history", 40, 90,
 		func(m *machine, txn *transaction.Transaction, o sim.Outcome, before *snapshot) error {
 			c := m.cur
 			fn := txn.FunctionName
@@ -406,6 +411,14 @@ func TestC14_CloseRefundsOnce(t *testing.T) {
 			slack := 2 * uint64(len(al.Blobbers)+1)
 			if uint64(got)+allRew > wp+cp+slack {
 				return fmt.Errorf("%s", m.viol("close-paid-more-than-pools", "%s of %s: write pool %d + challenge pool %d, but refund %d + reward increments %d", fn, c.alloc.id[:8], wp, cp, got, allRew))
+			}
+			// ... and nothing may be lost: the two pools are deleted by the close, so every token they held must have
+			// gone to the owner or into a stake pool's rewards
+			if uint64(got)+allRew+slack < wp+cp {
+				key := "close-lost-tokens"
+				if !st.Known(key) {
+					return fmt.Errorf("%s", m.viol(key, "%s of %s: write pool %d + challenge pool %d are gone, but the owner got %d and all stake pools' rewards grew by %d (%d tokens unaccounted for)", fn, c.alloc.id[:8], wp, cp, got, allRew, wp+cp-uint64(got)-allRew))
+				}
 			}
 			if blobRew > cp+charge+slack {
 				return fmt.Errorf("%s", m.viol("blobbers-paid-more-than-earned", "%s of %s: blobbers' rewards grew by %d, challenge pool was %d and the cancellation charge is at most %d", fn, c.alloc.id[:8], blobRew, cp, charge))
